@@ -170,6 +170,14 @@ Theorem C02_source_tie_format : forall (C : Type) tigetstr (tparm : list N -> C 
 Proof. exact (fun C => @src_format_eq C U). Qed.
 Print Assumptions C02_source_tie_format.
 
+(* what the CLI does when stdout is no terminal: color=True with the dummy curses (tigetstr = b'', and b''.decode() = '') *)
+Theorem C02_source_tie_format_no_tty : forall (C : Type) (tparm : list N -> C -> list N) decode colors s c name target extra,
+  decode [] = SRet [] ->
+  src_format (repr_str U) repr_bytes_full (fun _ => Some []) strip_delay tparm decode colors (sev_rank s) (cer_rank c) name target extra true
+  = SRet (format_line U (priority s c) target name [] [] extra).
+Proof. exact (fun C => @src_format_no_tty C U). Qed.
+Print Assumptions C02_source_tie_format_no_tty.
+
 (* so the translated code itself yields clean text: the line of Tag.format (colour off), and whatever safe_format gives str.format *)
 Theorem C02_source_format_clean : forall (C : Type) tigetstr (tparm : list N -> C -> list N) decode colors s c name target extra,
   clean U target -> clean U name -> Forall (arg_clean U) extra ->
